@@ -906,7 +906,19 @@ template <class D> struct ObjHarness : Harness {
         Env<D> tenv; tenv.o = twin_ops;
         Cur tcur(op, (size_t) d.nslots, R.W);
         std::string tans; bool tthrew = false;
-        try { tans = d.prep(tenv, tcur)(); } catch (const std::exception& e) { tthrew = true; tans = e.what(); }
+        bool trejected = false;
+        try { tans = d.prep(tenv, tcur)(); }
+        catch (const std::invalid_argument& e) { trejected = true; tans = e.what(); }
+        catch (const std::exception& e) { tthrew = true; tans = e.what(); }
+        if (trejected) {
+          // The call was accepted on the object but rejected on an equal value in another state: some
+          // preconditions are only tested on non-empty receivers (e.g. Grid::add_constraint with an
+          // inequality).  Counted, not judged: the statement of this property does not cover it.
+          ctx.stat("precondition_checked_only_in_some_states");
+          if (use_shadow) for (int s : uniq) R.shadow[(size_t) s] = std::move(tw[s]);
+          harvest(R, *R.pool[(size_t) slots[0]]);
+          continue;
+        }
         const char* mon = use_twin ? "twin" : use_alias_ref ? "alias" : "shadow";
         const std::string tprop = use_twin ? prop : use_alias_ref ? "C13" : "C15";
         ++R.twin_cmp; ctx.stat(std::string("cmp.") + mon);
